@@ -379,8 +379,12 @@ func sesRun(t *testing.T, lines []string) []string {
 				}
 			case "stall": // ses stall <c>: the client stops reading
 				w.conns[atoi(f[2])].stall()
-			case "drop":
-				w.conns[atoi(f[2])].drop()
+			case "drop": // ses drop <c> [<status code>: a close frame instead of a cut connection]
+				if len(f) > 3 {
+					w.conns[atoi(f[2])].closeFrame(atoi(f[3]))
+				} else {
+					w.conns[atoi(f[2])].drop()
+				}
 			case "send": // ses send <s> <t|b> <hex> <compress> <cb> <pre|->
 				var data interface{ Read([]byte) (int, error) }
 				if f[3] == "b" {
